@@ -7,7 +7,7 @@ use std::time::Duration;
 
 enum Inner<T> {
   Real(std::thread::JoinHandle<T>),
-  Sim { ctx: Ctx, task: usize, slot: Arc<StdMutex<Option<std::thread::Result<T>>>>, os: std::thread::JoinHandle<()> },
+  Sim { ctx: Ctx, task: usize, slot: Arc<StdMutex<Option<std::thread::Result<T>>>> },
 }
 
 pub struct JoinHandle<T>(Inner<T>);
@@ -18,12 +18,9 @@ impl<T> JoinHandle<T> {
     let site = Location::caller();
     match self.0 {
       Inner::Real(h) => h.join(),
-      Inner::Sim { ctx: c, task, slot, os } => {
+      Inner::Sim { ctx: c, task, slot } => {
         if let Some(me) = ctx() {
           me.exec.join(me.me, task, site);
-        } else {
-          // joined from outside the run (or while unwinding): wait for the OS thread
-          let _ = os.join();
         }
         let _ = c;
         let r = slot.lock().unwrap().take();
@@ -49,27 +46,24 @@ impl<T> JoinHandle<T> {
   }
 }
 
-pub(crate) fn spawn_in(c: Ctx, name: String, origin: Origin, stack: usize, site: &'static Location<'static>, f: Box<dyn FnOnce() + Send + 'static>) -> (usize, std::thread::JoinHandle<()>) {
-  let (task, cv) = c.exec.add_task(name.clone(), origin);
+pub(crate) fn spawn_in(c: Ctx, name: String, origin: Origin, site: &'static Location<'static>, f: Box<dyn FnOnce() + Send + 'static>) -> usize {
+  let (task, cv) = c.exec.add_task(name, origin);
   let exec = c.exec.clone();
-  let os = std::thread::Builder::new()
-    .name(format!("sim-{}", name))
-    .stack_size(stack)
-    .spawn(move || {
-      set_ctx(Some(Ctx { exec: exec.clone(), me: task, cv: cv.clone() }));
-      if exec.wait_first_baton(task, &cv) {
-        let r = catch_unwind(AssertUnwindSafe(f));
-        exec.task_exit(task, r.err(), true);
-      } else {
-        drop(f);
-        exec.task_exit(task, Some(Box::new(crate::exec::AbortRun)), true);
-      }
-      set_ctx(None);
-    })
-    .expect("cannot spawn OS thread for a simulated task");
+  crate::pool::execute(Box::new(move || {
+    set_ctx(Some(Ctx { exec: exec.clone(), me: task, cv: cv.clone() }));
+    if exec.wait_first_baton(task, &cv) {
+      let r = catch_unwind(AssertUnwindSafe(f));
+      exec.task_exit(task, r.err(), true);
+    } else {
+      // the run ended before this task ever ran; dropping its closure may run destructors
+      let _ = catch_unwind(AssertUnwindSafe(move || drop(f)));
+      exec.task_exit(task, Some(Box::new(crate::exec::AbortRun)), true);
+    }
+    set_ctx(None);
+  }));
   // scheduling point after spawn
   c.exec.yield_point(c.me, "spawn", site);
-  (task, os)
+  task
 }
 
 fn spawn_sim<F, T>(c: Ctx, name: String, origin: Origin, site: &'static Location<'static>, f: F) -> JoinHandle<T>
@@ -83,8 +77,8 @@ where
     let v = f();
     *slot2.lock().unwrap() = Some(Ok(v));
   });
-  let (task, os) = spawn_in(c.clone(), name, origin, 512 * 1024, site, body);
-  JoinHandle(Inner::Sim { ctx: c, task, slot, os })
+  let task = spawn_in(c.clone(), name, origin, site, body);
+  JoinHandle(Inner::Sim { ctx: c, task, slot })
 }
 
 #[track_caller]
